@@ -65,6 +65,14 @@ def directed(tier):
                         cfg_b=dict(node_id=nid_b, segment_size_tx_initial=30),
                         sends=[dict(side='A', length=70, at=-1), dict(side='B', length=10, at=2), dict(side='A', length=1, at=9)]))
         idx += 1
+    # a burst of many small bundles over a link with delay: all of them are on the wire before the first acknowledgement returns,
+    # and nothing but the acknowledgements happens afterwards
+    for (count, latency_ms, cap, both) in ((12, 50, None, False), (30, 200, None, True), (20, 20, 500, False), (9, 1000, None, False)):
+        out.append(dict(id='dir-%d' % idx, seed=idx, policy='eager', capacity=cap, latency_ns=latency_ms * 1000000,
+                        cfg_a=dict(segment_size_tx_initial=1000), cfg_b=dict(segment_size_tx_initial=1000),
+                        sends=[dict(side='A', length=10 + pos, at=-1) for pos in range(count)] +
+                        ([dict(side='B', length=40 + pos, at=-1) for pos in range(count)] if both else [])))
+        idx += 1
     # one octet at a time
     for seg in (1, 7, 100):
         out.append(dict(id='dir-%d' % idx, seed=idx, policy='octet', capacity=None, cfg_a=dict(segment_size_tx_initial=seg),
